@@ -199,6 +199,7 @@ type FCtx struct {
 	LockChecks    bool
 	LockSweep     bool
 	AutoLocks     bool
+	Globals       []*Term // definitional facts about fresh symbols
 	embTarget     map[string]string
 	embSeen       map[string]bool
 	embTerms      []*Term
